@@ -130,10 +130,6 @@ func (t *FnTrans) call(in ssa.Instruction, c *ssa.CallCommon, res ssa.Value) {
 		args = append(args, t.val(a))
 		argTypes = append(argTypes, t.resolve(a.Type()))
 	}
-	// intrinsics
-	if t.intrinsic(key, c, args, res) {
-		return
-	}
 	// ghost statements attached to this call site: "ghost before call <Type.Method|Func>: ..."
 	sk := key
 	if i := strings.LastIndex(sk, "/"); i >= 0 {
@@ -141,6 +137,18 @@ func (t *FnTrans) call(in ssa.Instruction, c *ssa.CallCommon, res ssa.Value) {
 	}
 	if i := strings.Index(sk, "."); i >= 0 {
 		sk = sk[i+1:]
+	}
+	// intrinsics (locks, atomics): same ghost positions around them
+	if strings.HasPrefix(key, "sync/atomic.") {
+		t.ghostAt("before call " + sk)
+		if t.intrinsic(key, c, args, res) {
+			t.lastCallRes = res
+			t.ghostAt("after call " + sk)
+			t.lastCallRes = nil
+			return
+		}
+	} else if t.intrinsic(key, c, args, res) {
+		return
 	}
 	t.ghostAt("before call " + sk)
 	defer func() {
@@ -188,7 +196,7 @@ func (t *FnTrans) havocCall(key string, c *ssa.CallCommon, res ssa.Value) {
 		_ = s
 		t.set(cn, t.freshVersion(cn, "@h"))
 	}
-	t.havocAll = true
+	t.havocRest()
 	if res != nil {
 		t.havocVal(res)
 	}
@@ -507,6 +515,7 @@ func (t *FnTrans) applyModifies(ct *Contract, env *Env) {
 	preSt := t.cur.clone()
 	saveSt := env.st
 	env.st = preSt
+	t.havocAll = false
 	for _, m := range ct.Modifies {
 		cond := ""
 		if m.Cond != nil {
@@ -515,8 +524,16 @@ func (t *FnTrans) applyModifies(ct *Contract, env *Env) {
 		t.modItem(m.E, env, func(comp string, sortS string, ref string) {
 			locs = append(locs, modLoc{comp, sortS, ref, cond})
 		})
+		if t.havocAll && cond != "" {
+			t.fail("modifies-if ... then everything is not supported")
+		}
 	}
 	env.st = saveSt
+	if t.havocAll {
+		// modifies everything: also what has not been mentioned on this path yet
+		defer t.havocRest()
+		t.havocAll = false
+	}
 	for _, ml := range locs {
 		func(comp string, sortS string, ref string, cond string) {
 			t.comp(comp, sortS)
@@ -944,12 +961,13 @@ func (t *FnTrans) withGuard(g string, f func()) {
 	for c, v := range t.cur.H {
 		old, ok := before.H[c]
 		if !ok {
-			old = t.entryVersion(c)
+			old = t.genVersion(c, before.Gen)
 		}
 		if v != old {
 			t.cur.H[c] = ite(g, v, old)
 		}
 	}
+	t.cur.Gen = t.mergeGen([]string{g}, []string{t.cur.Gen, before.Gen})
 }
 
 // ---------- builtins ----------
